@@ -27,6 +27,21 @@ CHECKS = {
          "DESIGN.md §7 C03",
          "Trusts go/types; call targets and generic-function bases are compared only through the call / instantiation result; expressions go/types cannot re-evaluate standalone are skipped (counted).",
          "property-based testing: generated programs, per-subexpression differential against go/types"),
+ "C16": ("exploration",
+         "Stateful invariant checking over generated well-nested, error-free operation histories (deep-nesting program profile, depth up to 8+): after every builder operation the operand-stack delta must equal the documented arity, after every completed statement the stack must be back at the statement's starting length, at every End the scope pointer, current function, vblock flag, stack length and the visible labels of the enclosing function must equal a snapshot taken when the construct was opened, and at the end the stack is empty, the scope is the package scope and no function is current. ~10^6 operations checked per quick run. Sampling.",
+         "DESIGN.md §7 C16",
+         "The arity table is the harness's (h/drive call sites); it was validated against the unchanged tree. Uses only public observers (InternalStack().Len, Scope, Func, InVBlock, LookupLabel) - no hook needed. Error-recovery histories are outside the quantifier.",
+         "property-based stateful testing: invariants checked after every step of generated operation histories"),
+ "C17": ("exploration",
+         "Hostile-input search under three configurations (default, XGo-builtin, bare): a deterministic operation x operand-kind grid (every template with every ill-typed operand kind; thorough tier enumerates it completely), random extreme constant trees, nesting up to 3000 deep, and multi-mutation mutants of valid programs. A recovered panic carrying a runtime.Error (or a non-error, non-string value) is a violation; the worker has a 6 GiB address-space limit and a 60 s per-case watchdog, and a worker death is a violation only when it reproduces with the case run alone; nesting families must not slow down more than x100 per x4.",
+         "DESIGN.md §7 C17",
+         "Reported errors of any kind (incl. log.Panicln TODO messages) count as clean rejections. Time is only used to detect hangs (confirmed in isolation). The cubic cost of printing deeply nested function literals (stock gofmt is linear) is below the stated bound and documented, not asserted.",
+         "fuzzing-style generated search with a run-time-fault oracle; exhaustive small-scope grid in the thorough tier"),
+ "C10": ("exploration",
+         "Function bodies generated from a control-flow grammar (all statement forms that matter for termination analysis and labels, closures with their own label space, shadowed panic) are confirmed by go/types to contain no error other than 'missing return', 'label declared and not used', 'label already declared'; the multiset of these diagnostics reported by go/types must equal the multiset delivered by the builder (error handler and panics). Sampling of an unbounded grammar.",
+         "DESIGN.md §7 C10",
+         "Trusts go/types' implementation of the specification's terminating-statement and label rules. For a body that declares a label twice only the duplicate diagnostics are compared (which statement the label binds to is then undefined).",
+         "property-based testing: grammar-based generation, differential against go/types diagnostics"),
  "C19": ("exploration",
          "Model-based state-machine testing (rapid): random Set/Delete/At/Len/Keys/Iterate/String histories over a pool of generated type keys containing structurally identical but pointer-distinct rebuilds, aliases, permuted/flattened interfaces, permuted unions, renamed type parameters, separately created instantiations, deliberate hash-collision twins and same-named foreign types; after every step every observable is compared with an association list over types.Identical, and Identical=>equal-hash is checked on all pool pairs. Sampling, not proof: right level because the property quantifies over unbounded histories and type shapes.",
          "DESIGN.md §7 C19",
